@@ -122,6 +122,7 @@ func cmdCheck(args []string) int {
 		seed, _ = strconv.Atoi(s)
 	}
 	start := time.Now()
+	curProp = prop
 	timeoutS := 30
 	if *tier == "thorough" {
 		timeoutS = 120
